@@ -176,8 +176,7 @@ def _raw_parent_coin(b):
 ARITY = {"one_hash": 2, "one_msg": 2, "one_amount": 2, "one_uint": 2, "no_arg": 1, "remark": 1, "create_coin": 3}
 
 
-def c19_4(ctx):
-    R = "C19.4"
+def c19_4(ctx, R="C19.4"):
     fb = ctx.fb
     spec = S.load()
     b = U.body(ctx, R, CC + "puzzle_fingerprint::compute_puzzle_fingerprint")
